@@ -66,8 +66,9 @@ def model_rows(rows, cols, dtypes):
     return [[to_model_value(r[c], dtypes[c]) for c in cols] for r in rows]
 
 
-def frame(rows, columns, dtypes):
-    """rows: list of dicts column -> python value (None = NaN / NaT; ts as int ns)"""
+def frame(rows, columns, dtypes, ts_unit="ns"):
+    """rows: list of dicts column -> python value (None = NaN / NaT; ts as int ns); ts_unit: the
+    resolution of the timestamp columns (pandas 3 produces datetime64[us] / [s] from strings and ranges)"""
     import numpy as np
     import pandas as pd
     data = {}
@@ -81,5 +82,8 @@ def frame(rows, columns, dtypes):
         elif dt == "bool":
             data[c] = np.array([bool(v) for v in vals], dtype=bool)
         else:
-            data[c] = pd.to_datetime(pd.Series([pd.NaT if v is None else pd.Timestamp(int(v)) for v in vals], dtype="datetime64[ns]"))
+            col = pd.to_datetime(pd.Series([pd.NaT if v is None else pd.Timestamp(int(v)) for v in vals], dtype="datetime64[ns]"))
+            if ts_unit != "ns":
+                col = col.astype("datetime64[%s]" % ts_unit)
+            data[c] = col
     return pd.DataFrame(data, columns=columns)
